@@ -512,6 +512,8 @@ class PlainQuantity(Generic[MagnitudeT], PrettyIPython, SharedRegistryObject):
 
         self._magnitude = self._convert_magnitude(other, *contexts, **ctx_kwargs)
         self._units = other
+        # a context may have taken the quantity to another dimensionality
+        self._dimensionality = None
 
         return None
 
